@@ -48,14 +48,22 @@ def build_driver():
         raise RuntimeError("lake build ftpdriver failed:\n" + r.stdout[-3000:] + r.stderr[-3000:])
     return os.path.join(LEAN, ".lake", "build", "bin", "ftpdriver")
 
+def prop_files(pid):
+    """Props/<pid>.lean and its continuation files Props/<pid><letter>.lean (same namespace Ftp.Props.<pid>)"""
+    d = os.path.join(LEAN, "Ftp", "Props")
+    out = []
+    for f in sorted(os.listdir(d)) if os.path.isdir(d) else []:
+        if re.fullmatch(re.escape(pid) + r"[a-z]?\.lean", f):
+            out.append(os.path.join(d, f))
+    return out
+
 def theorems_of(pid):
-    path = os.path.join(LEAN, "Ftp", "Props", pid + ".lean")
-    if not os.path.exists(path):
-        return path, []
-    src = strip_comments(open(path).read())
+    names = []
     ns = "Ftp.Props." + pid
-    names = re.findall(r"^\s*theorem\s+([A-Za-z0-9_'.]+)", src, re.M)
-    return path, [ns + "." + n for n in names]
+    for path in prop_files(pid):
+        src = strip_comments(open(path).read())
+        names += [ns + "." + n for n in re.findall(r"^\s*theorem\s+([A-Za-z0-9_'.]+)", src, re.M)]
+    return os.path.join(LEAN, "Ftp", "Props", pid + ".lean"), names
 
 def audit(pid, thorough=False):
     """Returns dict: ok, obligations, discharged, theorems {name: [axioms]}, problems [str], checker_cmd."""
@@ -77,16 +85,17 @@ def audit(pid, thorough=False):
         m = FORBIDDEN.search(strip_comments(open(f).read()))
         if m:
             res["problems"].append("forbidden construct %r in %s" % (m.group(0).strip(), os.path.relpath(f, ROOT)))
-    r = lake(["build", "Ftp.Props." + pid])
+    modules = ["Ftp.Props." + os.path.basename(f)[:-5] for f in prop_files(pid)]
+    r = lake(["build"] + modules)
     if r.returncode != 0:
         res["problems"].append("lake build Ftp.Props.%s failed: %s" % (pid, (r.stdout + r.stderr)[-1500:]))
         return res
     if "declaration uses 'sorry'" in r.stdout + r.stderr:
         res["problems"].append("a declaration uses sorry")
-    src = strip_comments(open(path).read())
-    res["examples"] = len(re.findall(r"^\s*example\b", src, re.M))
+    res["examples"] = sum(len(re.findall(r"^\s*example\b", strip_comments(open(f).read()), re.M)) for f in prop_files(pid))
     with tempfile.NamedTemporaryFile("w", suffix=".lean", dir=os.path.join(ROOT, "build"), delete=False) as tf:
-        tf.write("import Ftp.Props.%s\n" % pid)
+        for m in modules:
+            tf.write("import %s\n" % m)
         for n in names:
             tf.write("#print axioms %s\n" % n)
         tmp = tf.name
@@ -111,9 +120,10 @@ def audit(pid, thorough=False):
         else:
             res["discharged"] += 1
     if thorough:
-        r = lake(["env", "leanchecker", "Ftp.Props." + pid], timeout=3000)
-        if r.returncode != 0:
-            res["problems"].append("leanchecker failed: " + (r.stdout + r.stderr)[-800:])
+        for m in modules:
+            r = lake(["env", "leanchecker", m], timeout=3000)
+            if r.returncode != 0:
+                res["problems"].append("leanchecker failed on %s: %s" % (m, (r.stdout + r.stderr)[-800:]))
     if res["problems"]:
         res["discharged"] = min(res["discharged"], res["obligations"] - 1) if res["discharged"] >= res["obligations"] else res["discharged"]
     res["ok"] = not res["problems"] and res["discharged"] == res["obligations"]
